@@ -8,13 +8,14 @@ PROPS = {
     "C13": {
         "units": ["bitstream"],
         "kani": {"quick": STD_SPECS + ["c13_read_cmr_complete", "c13_read_cmr_short_complete"],
-                 "thorough": ["c13_read_fail_entropy_complete", "c13_collect_bits_bounded20", "c13_writer_ops_bounded", "c13_reader_ops_bounded"]},
-        "cex": {"BitIter::byte_slice_window": "c13_byte_slice_window_exact_cex"},
+                 "thorough": ["c13_read_fail_entropy_complete", "c13_collect_bits_bounded20", "c13_writer_ops_bounded", "c13_reader_ops_bounded", "c13_write_after_flush_bounded"]},
+        "cex": {"BitIter::byte_slice_window": "c13_byte_slice_window_exact_cex", "BitWriter::flush_all": "c13_write_after_flush_bounded",
+                "BitWriter::write_bit": "c13_write_after_flush_bounded"},
         "fallback": {
             "BitWriter::write_bit": ["c13_writer_ops_bounded"],
             "BitWriter::write_bits_be": ["c13_writer_ops_bounded"],
             "BitWriter::write": ["c13_writer_ops_bounded"],
-            "BitWriter::flush_all": ["c13_writer_ops_bounded"],
+            "BitWriter::flush_all": ["c13_writer_ops_bounded", "c13_write_after_flush_bounded"],
             "BitIter::next": ["c13_reader_ops_bounded"],
             "BitIter::read_bit": ["c13_reader_ops_bounded"],
             "BitIter::read_u2": ["c13_reader_ops_bounded"],
@@ -70,7 +71,8 @@ PROPS = {
             "get_indices": ["c05_frame_write_bit_bounded", "c05_frame_read_peek_bounded"],
         },
 
-        "kani": {"quick": ["s07_usize_div_ceil_8"], "thorough": []},
+        "kani": {"quick": ["s07_usize_div_ceil_8", "c07_bounds_dominate_children_complete", "c07_bounds_comp_complete"], "thorough": []},
+        "cex": {"NodeBounds::case": "c07_bounds_dominate_children_complete", "NodeBounds::comp": "c07_bounds_comp_complete"},
         "level": "proof",
         "level_text": "Unbounded deductive proof (Verus) of (1) every Bit Machine memory primitive (Frame::*, BitMachine::{new_write_frame, "
                       "move_write_frame_to_read, drop_read_frame, write_bit, write_u8, write_bytes, read_bit, copy, skip, fwd, back}): indices in "
@@ -138,7 +140,9 @@ PROPS = {
     "C10": {
         "units": ["value"],
         "exclude_functions": {"value": ["Finalizer1::convert_witness", "Finalizer2::convert_witness", "DecodeFinalizer::convert_witness"]},
-        "kani": {"quick": ["s07_usize_div_ceil_8"], "thorough": []},
+        "kani": {"quick": ["s07_usize_div_ceil_8"], "thorough": ["c10_copy_bits_bounded"]},
+        "fallback": {"copy_bits": ["c10_copy_bits_bounded"]},
+        "cex": {"copy_bits": "c10_copy_bits_bounded"},
         "level": "proof",
         "level_text": "Unbounded deductive proof (Verus), per function, on the real value code: padded length = type width; copy_bits / right_shift_1 / "
                       "product (bit-level, every alignment, stale bits overwritten); ValueRef::{first_bit, as_left, as_right, as_product} return exactly "
